@@ -43,7 +43,7 @@ var cv = rsm2.Std
 
 func TestMain(m *testing.M) {
 	R.Require("cert/sm2/alg_default", "cert/rsa/alg_default", "cert/ecdsa/alg_default", "cert/sm2/SM2-SHA1", "cert/sm2/SM2-SHA256", "csr/sm2/alg_default", "csr/ecdsa/alg_default", "csr/rsa/alg_default",
-		"crl/sm2", "revlist/sm2/alg_default", "revlist/sm2/SM2-SHA256", "serial_negative", "extra_ext_override", "mutant_tbs_or_sig", "other_key", "sig_reencoded", "mutant_value_level", "issued_under_parsed_ca", "ca_subject:multivalue_rdn", "ca_subject:extra_attr")
+		"crl/sm2", "revlist/sm2/alg_default", "revlist/sm2/SM2-SHA256", "serial_negative", "extra_ext_override", "mutant_tbs_or_sig", "other_key", "sig_reencoded", "mutant_value_level", "csr_extreq_attr", "issued_under_parsed_ca", "ca_subject:multivalue_rdn", "ca_subject:extra_attr")
 	hx.Main(m, R)
 }
 
@@ -794,6 +794,15 @@ func TestC09_CSR(t *testing.T) {
 			tpl.Attributes = []pkix.AttributeTypeAndValueSET{{Type: asn1.ObjectIdentifier{1, 2, 840, 113549, 1, 9, 7}, Value: [][]pkix.AttributeTypeAndValue{{{Type: asn1.ObjectIdentifier{1, 2, 840, 113549, 1, 9, 7}, Value: "challenge"}}}}}
 			opt++
 		}
+		var attrExt *pkix.Extension
+		if rapid.Bool().Draw(t, "extreq_attr") {
+			// the caller already placed an extensionRequest attribute (with one extension of its own) among the
+			// attributes: the SANs and ExtraExtensions of the template must be merged into it, not lost
+			attrExt = &pkix.Extension{Id: asn1.ObjectIdentifier{1, 2, 3, 4, 88}, Value: []byte{4, 1, 7}}
+			tpl.Attributes = append(tpl.Attributes, pkix.AttributeTypeAndValueSET{Type: asn1.ObjectIdentifier{1, 2, 840, 113549, 1, 9, 14},
+				Value: [][]pkix.AttributeTypeAndValue{{{Type: attrExt.Id, Value: attrExt.Value}}}})
+			opt++
+		}
 		var der []byte
 		var err error
 		if p := hx.Try(func() { der, err = gx.CreateCertificateRequest(rand.Reader, tpl, s.priv) }); p != nil {
@@ -845,6 +854,18 @@ func TestC09_CSR(t *testing.T) {
 			if !found {
 				t.Fatalf("CSR extra extension missing")
 			}
+		}
+		if attrExt != nil {
+			found := false
+			for _, g := range got.Extensions {
+				if g.Id.Equal(attrExt.Id) {
+					found = true
+				}
+			}
+			if !found {
+				t.Fatalf("%s: the extension the caller put into an extensionRequest attribute is missing from the parsed CSR", label)
+			}
+			R.Class("csr_extreq_attr")
 		}
 		// public key in the CSR is the signer's
 		switch k := s.priv.(type) {
